@@ -26,6 +26,7 @@ var tiers = map[string][3]int{
 	"C08": {400, 8000, 0},
 	"C17": {2500, 30000, 0},
 	"C18": {1000, 25000, 0},
+	"C16": {600, 15000, 240},
 }
 
 func tierOf(id string, thorough bool) tierCfg {
@@ -101,5 +102,10 @@ func init() {
 	props["C18"] = propCfg{
 		Rule:        "directory trees drawn from a universe with nested modules, duplicate base names (alpha.lua, mods/alpha.lua), init.lua packages (pkg/init.lua, deep/x/init.lua), a three-level path and a native .so; a main file with 1-6 require calls (dotted, slashed, single-name, partial-path and non-existing module strings) and 0-2 dofile calls with suffixed paths; RequirePathSeparator '.' or '/'; then 0-6 create / delete events of the Lua files (disk operation + didChangeWatchedFiles). After the initial analysis and after every event: the reference resolver (module string -> path with '.' as '/', candidates = files equal to or ending in /path.lua, else /path/init.lua; a .so at the root tolerated) decides: type-6 diagnostic on the call iff no candidate; go-to-definition on the string is empty iff no candidate, else the start of a candidate; hover names a Lua file iff a candidate exists and the path it shows is a suffix of the file go-to-definition opened. Non-trivial: a module string with >= 2 path components that resolves, or an answer that changes during the history; distinct by case.",
 		Assumptions: append([]string{"don't-care: which of several candidates is chosen, dotted names under the '/' separator setting, native modules created or deleted after start-up, precedence between a .so and a Lua file of the same name, ReferMatchPathFlag mode, frame import functions"}, commonAssume...),
+	}
+	props["C16"] = propCfg{
+		FuzzTarget:  "FuzzAnnot",
+		Rule:        "1-6 annotation lines per case derived from the grammar of docs/manual/annotate.md: type (1-3 comma-separated types), class (0-3 parents), field (visibility, name, type), param (optional marker), return (1-3 types), alias, generic (with bounds), overload, vararg; type expressions of nesting depth 0-4 over base names, class names, unions, T[] (also T[][]), table<K,V>, fun(a: T, b?: U): R1, R2 and parentheses (inserted wherever the grammar would otherwise attach a return list or array suffix differently); optional trailing @comments in ASCII and CJK. Oracle: (a) each line is accepted by the annotation parser and, embedded in an otherwise valid file, raises no type-18 diagnostic; (b) the parser's AST, dumped in a canonical form, equals the canonical form of the generator's own AST (unions flattened, parentheses dropped); (c) round trip: TypeConvertStr of every understood type, read again, gives the same canonical AST. One case in three also corrupts one line by deleting / duplicating / replacing a token and compares the diagnostics of the file with and without the corruption: every other line keeps exactly its diagnostics and anything new on the corrupted line is of type 18. Non-trivial: a line whose type has depth >= 2 with a union inside an array or a fun inside a fun; distinct by case.",
+		Assumptions: append([]string{"the generator's printer is the reference reading of the documented grammar ('|' binds looser than '[]', parentheses group, a fun's return list extends as far as possible)"}, commonAssume...),
 	}
 }
